@@ -73,21 +73,25 @@ def make_oracles():
 # ---------------------------------------------------------------- pinned source text (nothing here goes through py2coq)
 PINNED = {
     'PrivKey.encrypt_keyblob': 'b02856ec5aa4',   # a3ce830: S2K specifier built on the side, installed with the ciphertext after _encrypt
-    'PrivKey.decrypt_keyblob': '674c88df3519',
+    'PrivKey.decrypt_keyblob': '751673206e3a',   # 8563c06: 16-bit checksum whenever usage != 254 (gate)
     'PrivKey.clear': '6511ffe3a463',
-    'PGPKey.unlock': 'a08e792702a5',             # e967622: entry loop and finally pass over key material that is not protected
-    'PGPKey.protect': '9e6d18e357fc',
+    'PGPKey.unlock': '1072b08798a7',             # e967622 + a8a4c11: warn-and-yield only when NO component is protected; loops pass over unprotected material
+    'PGPKey.protect': '69f7ec0ca3ee',            # 080d1e8: warns and returns while ANY component is protected and locked (any_locked)
     'PrivKeyV4.unlocked': '01afa6232098',
-    'String2Key.parse': 'ed2d36842df8',
+    'String2Key.parse': 'b308ab674d8c',          # 8563c06: legacy usage octet = cipher id, Simple / MD5 implied, IV follows (s2k_parse)
     'PrivKeyV4.protected': 'a0de53a8c307',
     'PGPKey.is_unlocked': 'ab5c0e24e60a',
     'PGPKey.is_protected': '487fd21efa34',
     'KeyAction.check_attributes': '5bc1ee5f304f',
-    'String2Key.__bytearray__': 'cda9d3f32607',
+    'String2Key.__bytearray__': '3df96d4298bf',  # 8563c06: legacy form writes usage + IV only (s2k_emit_std)
     'PrivKey.__bytearray__': '32da223c6d96',
     'String2Key._experimental_bytearray': '8cdd6a4d556b',   # 05bf06b: serial length octet whenever the extension is 2 (s2k_emit_gnu)
     'String2Key._experimental_parse': '5b6bfe665624',
-    'PGPKey.add_subkey': '85b34b9f5c87',         # 163b208: a refused self.bind undoes the attachment (OAddSub on a locked primary: state unchanged)
+    'PrivKeyV4.unprotect': '9616b1bd6fdb',      # 9a72221: a GNU-extension stub returns at once (USkip)
+    'String2Key.legacy': 'eaaeeb015b96',
+    'String2Key.__bool__': 'b58f52248292',
+    'KeyAction.__call__': 'c8bb870361fc',        # cab6d36: conditions checked on the selected component (private_op)
+    'PGPKey.add_subkey': '8a95c73c2518',         # 163b208 refused bind undone; a832629: a candidate with user ids is refused before anything (not generated here)
 }
 
 
@@ -103,7 +107,9 @@ def source_digests():
             'PGPKey.is_protected': PGPKey.is_protected.fget, 'KeyAction.check_attributes': KeyAction.check_attributes,
             'String2Key.__bytearray__': String2Key.__bytearray__, 'PrivKey.__bytearray__': PrivKey.__bytearray__,
             'String2Key._experimental_bytearray': String2Key._experimental_bytearray,
-            'String2Key._experimental_parse': String2Key._experimental_parse, 'PGPKey.add_subkey': PGPKey.add_subkey}
+            'String2Key._experimental_parse': String2Key._experimental_parse, 'PGPKey.add_subkey': PGPKey.add_subkey,
+            'PrivKeyV4.unprotect': PrivKeyV4.unprotect, 'String2Key.legacy': String2Key.legacy.fget, 'String2Key.__bool__': String2Key.__bool__,
+            'KeyAction.__call__': KeyAction.__call__}
     out = {}
     for n, o in objs.items():
         o = getattr(o, '__wrapped__', o)
@@ -409,16 +415,20 @@ class Hist:
             if (kind in ('X', 'R') and obs == 'done') or obs in ('raised1', 'raised2') and kind == 'E':
                 # a scope ended (normally / by exception) or entering failed: no secret integer of a PROTECTED packet
                 # may be reachable from the object graph (key material that is not protected legitimately stays: e967622)
-                if prot and prot[0]:
+                if any(prot):      # (the primary key need not be the protected component: a8a4c11)
                     psecrets = [v for i, l in enumerate(orig) if i < len(prot) and prot[i] for v in l]
                     hits, n = graph_secrets(key, psecrets)
                     if hits:
                         ctx.fail(self.suite, 'secret integer of a protected packet reachable from the key object after the unlock scope ended',
                                  dict(case, hits=hits[:4]))
                         ok = False
-                    if key.is_unlocked:
+                    if prot[0] and key.is_unlocked:
                         ctx.fail(self.suite, 'key still unlocked after the unlock scope ended', case)
                         ok = False
+                    for i, pk in enumerate(pkts(key)):
+                        if prot[i] and any(secret_ints(pk)):
+                            ctx.fail(self.suite, 'protected component still holds secret integers after the unlock scope ended', dict(case, packet=i))
+                            ok = False
                     # secrets kept OUTSIDE Python integers (a cached backend key object) are invisible to the graph scan: whatever the
                     # packet-level private operation can still produce after the scope must not be a signature of the real key
                     for i, pk in enumerate(pkts(key)):
@@ -660,8 +670,10 @@ def _run(ctx, d, pgpy):
 
     ctx.exhaustive.append('every protection cipher PGPy supports (9) and every S2K hash (7) at least once' if ctx.quick else
                           'all 63 protection cipher x S2K hash combinations')
-    ctx.exhaustive.append('foreign forms: usage {254, 255} x S2K {simple, salted, iterated} on every pool key (DSA included), GNU stubs ext 1 / 2 '
-                          '(serial of 0, 3, 16 octets)')
+    ctx.exhaustive.append('foreign forms: usage {254, 255} x S2K {simple, salted, iterated} %s (DSA included), legacy usage octet '
+                          '(AES128 / CAST5 / AES256%s), GNU stubs ext 1 / 2 (serial of 0, 3, 16 octets); components protected differently: '
+                          '{protected primary + unprotected subkeys, unprotected primary + protected subkeys, GNU-dummy primary + protected subkeys}'
+                          % (('each on two of the four pool keys', ', one per key') if ctx.quick else ('on every pool key', ' on every key')))
     ctx.exhaustive.append('refused protection ciphers {Plaintext, IDEA, Twofish256} x {unprotected, locked, unlocked protected} key state, on every key')
 
     lap['protect-layout'] = time.time() - t0; t0 = time.time()
@@ -711,7 +723,9 @@ def foreign(ctx, d, pgpy, names, pws):
     forms = [(u, sp) for u in (254, 255) for sp in (0, 1, 3)]
     cases = []
     for n in names:
-        for (u, sp) in forms:
+        for fi, (u, sp) in enumerate(forms):
+            if ctx.quick and (fi + names.index(n)) % 2:
+                continue       # quick tier: every form on every other key (each form on two of the four keys); thorough: on all
             cases.append((n, u, sp))
     reps = ctx.n(1, 6)
     for rep in range(reps):
@@ -742,6 +756,22 @@ def foreign(ctx, d, pgpy, names, pws):
         case = {'suite': 'foreign', 'key': n, 'usage': u, 'spec': 0, 'cipher': a, 'hash': h, 'count': 0, 'pw': pw_json(pw), 'forms': fs}
         guarded(ctx, suite, case, check_foreign, ctx, d, pgpy, suite, case, plain, orig)
         ctx.case(suite, (n, u, 0, 'empty'), sample={k: case[k] for k in ('key', 'usage', 'spec', 'cipher', 'hash', 'pw')})
+    # legacy usage octet (RFC 4880 5.5.3: the usage octet IS the cipher id; key = MD5 simple S2K; 16-bit checksum inside the
+    # ciphertext): written by the model with AES128 / CAST5 / AES256, read by PGPy -- loaded locked, exported identically, wrong
+    # passphrase refused, unlocked, used, re-protected (8563c06)
+    for n in names:
+        for u in (7, 3, 9):
+            if ctx.quick and u != (7, 3, 9)[names.index(n) % 3]:
+                continue       # quick tier: one legacy cipher per key
+            key = keypool.get(n)
+            plain = bytes(key)
+            orig = [secret_ints(pk) for pk in pkts(key)]
+            pw = pws[(u + len(n)) % len(pws)]
+            fs = ['S,%s,%s,0,1,-,0,%s,%s' % (hn(u), hn(u), hx(bytes(rng.randrange(256) for _ in range(BLOCK[u]))), hx(pw_octets(pw))) for _ in orig]
+            case = {'suite': 'foreign', 'key': n, 'usage': u, 'spec': 0, 'cipher': u, 'hash': 1, 'count': 0, 'pw': pw_json(pw), 'forms': fs}
+            guarded(ctx, 'foreign-legacy-usage', case, check_foreign, ctx, d, pgpy, 'foreign-legacy-usage', case, plain, orig)
+            guarded(ctx, 'foreign-legacy-usage', case, check_legacy_layout, ctx, d, pgpy, 'foreign-legacy-usage', case, plain, orig)
+            ctx.case('foreign-legacy-usage', (n, u, repr(pw)), sample={k: case[k] for k in ('key', 'usage', 'pw')})
     # GNU dummy / smartcard stubs
     for n in names:
         for ext, serial in ((1, b''), (2, bytes(range(16))), (2, b'\x01\x02\x03'), (2, b'')):
@@ -782,7 +812,7 @@ def check_foreign(ctx, d, pgpy, suite, case, plain, orig):
             ok = False
         wrong = b'definitely wrong ' + pw_octets(pw)[:4]
         expect_reject = True
-        if case['usage'] == 255:
+        if case['usage'] != 254:
             # a 16-bit checksum lets a wrong passphrase through once in 65536 tries: ask the model whether this is such a case
             expect_reject = parse_read(d.call('readkey', hx(blob), hx(wrong)))[0].get('res') == 'BAD'
         try:
@@ -874,6 +904,33 @@ def check_foreign(ctx, d, pgpy, suite, case, plain, orig):
     return ok
 
 
+def check_legacy_layout(ctx, d, pgpy, suite, case, plain, orig):
+    """the model-written legacy key against an encoder written HERE from RFC 4880 5.5.3 / 3.7.1.1 (hashlib MD5 + cryptography CFB, no
+    pgpy, no model): usage octet = cipher id, IV, CFB(MPIs + 16-bit sum) under MD5(passphrase) stretched by the zero-prefix rule"""
+    u, pw = case['usage'], pw_octets(pw_unjson(case['pw']))
+    blob = unhx(d.call('rewrite', hx(plain), ';'.join(case['forms'])))
+    got = parse_read(d.call('readkey', hx(blob), hx(pw)))
+    ok = True
+    for i, (p_, f) in enumerate(zip(got, case['forms'])):
+        iv = unhx(f.split(',')[7])
+        pt = b''.join(((v.bit_length()).to_bytes(2, 'big') + int_octets(v)) for v in orig[i])
+        pt += (sum(pt) % 65536).to_bytes(2, 'big')
+        e = _cipher(u, rfc_s2k(0, 1, KEYLEN[u], b'', 0, pw), iv).encryptor()
+        want = bytes([u]) + iv + e.update(pt) + e.finalize()
+        if p_.get('kind') != 'P' or p_.get('usage') != u or p_.get('symalg') != u or p_.get('spec') != 0 or p_.get('halg') != 1 or p_.get('iv') != iv:
+            ctx.fail(suite, 'model reader does not see the legacy specifier it wrote', dict(case, packet=i)); ok = False
+        if want not in blob:
+            ctx.fail(suite, 'model-written legacy secret part differs from the independent RFC 4880 5.5.3 encoder', dict(case, packet=i)); ok = False
+    with warnings.catch_warnings():
+        warnings.simplefilter('ignore')
+        key = pgpy.PGPKey.from_blob(blob)[0]
+        for i, pk in enumerate(pkts(key)):
+            s = pk._key.keymaterial.s2k
+            if (s.usage, int(s.encalg), int(s.specifier), int(s.halg)) != (u, u, 0, 1) or not s.legacy:
+                ctx.fail(suite, 'PGPy does not read the legacy usage octet as cipher / simple S2K / MD5', dict(case, packet=i)); ok = False
+    return ok
+
+
 def check_gnu(ctx, d, pgpy, suite, case, plain):
     from pgpy.errors import PGPError
     out = d.call('rewrite', hx(plain), ';'.join(case['forms']))
@@ -894,11 +951,15 @@ def check_gnu(ctx, d, pgpy, suite, case, plain):
         if bytes(key) != blob:
             ctx.fail(suite, 'GNU-dummy key is not re-exported octet for octet', case); ok = False
         try:
-            with key.unlock('anything'):
-                if key.is_unlocked:
+            with key.unlock('anything'):       # 9a72221: a stub is passed over -- no exception, nothing unlocked
+                if key.is_unlocked or any(v for pk in pkts(key) for v in secret_ints(pk)):
                     ctx.fail(suite, 'GNU-dummy key unlocked', case); ok = False
-        except Exception:
-            pass
+                if bytes(key) != blob:
+                    ctx.fail(suite, 'GNU-dummy key exports differently inside an unlock scope', case); ok = False
+        except Exception as ex:
+            ctx.fail(suite, 'unlock of a GNU-dummy key raised %r (a stub is to be passed over)' % ex, case); ok = False
+        if bytes(key) != blob:
+            ctx.fail(suite, 'GNU-dummy key exports differently after an unlock scope', case); ok = False
         try:
             key.sign('x')
             ctx.fail(suite, 'GNU-dummy key signs', case); ok = False
@@ -907,9 +968,9 @@ def check_gnu(ctx, d, pgpy, suite, case, plain):
         except Exception as ex:
             ctx.fail(suite, 'GNU-dummy key: sign raised %r instead of refusing' % ex, case); ok = False
     # model agrees on the history
-    ans = d.call('hist', hx(blob), 'E,%s;S,0;O;I;S,0' % hx(b'anything'))
+    ans = d.call('hist', hx(blob), 'E,%s;S,0;P,%s,9,8,60,-;X;S,0;O;I;S,0' % (hx(b'anything'), hx(b'new')))
     st = [s.split('|')[0] for s in ans.split('/')]
-    if st[:2] != ['raised2', 'refused'] or st[4] != 'refused':
+    if st[:5] != ['done', 'refused', 'warned', 'done', 'refused'] or st[7] != 'refused':
         ctx.fail(suite, 'model disagrees on the GNU-dummy history', dict(case, model=st)); ok = False
     return ok
 
@@ -956,21 +1017,38 @@ def subkey_scopes(ctx, pgpy):
 
 
 def mixed(ctx, d, pgpy, pws, only=None):
-    """primary protected, subkeys not (written by the model): since e967622 PGPKey.unlock passes over the subkeys -- the key unlocks,
-    signs / decrypts, and leaving the scope (normally, by exception, by a failed enter) clears the primary only"""
+    """components protected differently (keys written by the model):
+      pu  protected primary, unprotected subkeys (e967622: unlock passes over the subkeys, leaving the scope clears the primary only)
+      up  unprotected primary, protected subkeys (a8a4c11: unlock enters, unlocks exactly the subkeys and locks exactly those again;
+          080d1e8: protect while a subkey is locked only warns; cab6d36: decrypt by the re-locked subkey refuses)
+      gp  GNU-dummy primary, protected subkeys (9a72221: the stub is passed over, the subkeys unlock; the stub never signs)"""
     suite = 'mixed-protection'
-    from pgpy.constants import SymmetricKeyAlgorithm, HashAlgorithm
-    for n in ((only,) if only else ('ed25519', 'p256', 'rsa2048')):
+    P = lambda pw, alg=9: {'op': 'P', 'pw': pw_json(pw), 'alg': alg, 'halg': 8, 'count': 60}
+    E, B, N, O, S, D, X, R, I = ({'op': 'E', 'pw': pw_json('pw')}, {'op': 'E', 'pw': pw_json('bad')}, {'op': 'E', 'pw': pw_json('new pw')}, {'op': 'O'},
+                                 {'op': 'S'}, {'op': 'D'}, {'op': 'X'}, {'op': 'R'}, {'op': 'I'})
+    A1, A2 = {'op': 'A', 'alg': 'ecdh'}, {'op': 'A', 'alg': 'eddsa'}
+    shapes = {
+        'pu': [O, S, D, P('x'), E, O, S, D, B, S, X, O, S, D, E, S, R, O, B, O, X, A1, E, A2, O, X, O, I, O, E, S, P('new pw'), O, X, O, N, S, D, X],
+        'up': [O, S, D, P('x'), O, E, O, S, D, X, O, D, B, D, E, D, R, D, I, D, P('x', 1), E, A1, P('new pw'), O, D, X, O, S, D, N, S, D, X, E, B],
+        'gp': [O, S, D, P('x'), O, E, O, S, D, P('x'), X, O, B, E, R, I, E, A1, X, O],
+    }
+    todo = [(only[0], only[1])] if only else [(n, sh) for n in ('ed25519', 'p256', 'rsa2048') for sh in ('pu', 'up', 'gp')]
+    for n, sh in todo:
         try:
             key = keypool.get(n)
         except Exception:
             continue
         plain = bytes(key)
-        a, h = 9, 8
-        salt, iv = bytes(ctx.rng.randrange(256) for _ in range(8)), bytes(ctx.rng.randrange(256) for _ in range(16))
-        fs = ['S,fe,%s,3,%s,%s,60,%s,%s' % (hn(a), hn(h), hx(salt), hx(iv), hx(b'pw'))] + ['K'] * (len(pkts(key)) - 1)
+        npk = len(pkts(key))
+        if npk < 2:
+            continue
+
+        def form():
+            return 'S,fe,9,3,8,%s,60,%s,%s' % (hx(bytes(ctx.rng.randrange(256) for _ in range(8))), hx(bytes(ctx.rng.randrange(256) for _ in range(16))), hx(b'pw'))
+        fs = {'pu': [form()] + ['K'] * (npk - 1), 'up': ['K'] + [form() for _ in range(npk - 1)],
+              'gp': ['G,fe,1,-'] + [form() for _ in range(npk - 1)]}[sh]
         out = d.call('rewrite', hx(plain), ';'.join(fs))
-        case = {'suite': 'mixed', 'key': n}
+        case = {'suite': 'mixed', 'key': n, 'shape': sh}
         if out == 'ERR':
             ctx.fail(suite, 'model could not rewrite the key', case)
             continue
@@ -978,16 +1056,21 @@ def mixed(ctx, d, pgpy, pws, only=None):
             warnings.simplefilter('ignore')
             k2 = outcome(lambda: pgpy.PGPKey.from_blob(unhx(out))[0])
             if k2[0] != 'ok':
-                ctx.fail(suite, 'PGPy cannot load a key with a protected primary and unprotected subkeys: %s' % k2[1], case)
+                ctx.fail(suite, 'PGPy cannot load a key whose components are protected differently: %s' % k2[1], case)
                 continue
             k2 = k2[1]
-            hist = Hist(ctx, d, pgpy, n, suite, extra={'suite': 'mixed'})
-            E, B, O, S, D, X, R = ({'op': 'E', 'pw': pw_json('pw')}, {'op': 'E', 'pw': pw_json('bad')}, {'op': 'O'}, {'op': 'S'}, {'op': 'D'},
-                                   {'op': 'X'}, {'op': 'R'})
-            ops = [O, S, D, E, O, S, D, B, S, X, O, S, D, E, S, R, O, B, O, X, {'op': 'A', 'alg': 'ecdh'}, E, {'op': 'A', 'alg': 'eddsa'}, O, X, O,
-                   {'op': 'I'}, O, E, S, X]
-            hist.run(ops, key=k2, orig=[secret_ints(pk) for pk in pkts(key)])
-        ctx.case(suite, n, sample=case)
+            hist = Hist(ctx, d, pgpy, n, suite, extra={'suite': 'mixed', 'shape': sh})
+            hist.run(shapes[sh], key=k2, orig=[secret_ints(pk) for pk in pkts(key)])
+            ctx.case(suite, (n, sh), sample=case)
+            # random walks from the same starting key (thorough tier; a recorded case replays its own op list)
+            for j in range(0 if (ctx.quick or only) else 6):
+                ops = gen_history(ctx.rng, ['pw', 'new pw', 'pw'], True, ctx.rng.randrange(5, 14), [0, 16, 60])
+                kj = outcome(lambda: pgpy.PGPKey.from_blob(unhx(out))[0])
+                if kj[0] != 'ok':
+                    break
+                Hist(ctx, d, pgpy, n, suite, extra={'suite': 'mixed', 'shape': sh, 'forms': fs, 'walk': True}).run(
+                    ops, key=kj[1], orig=[secret_ints(pk) for pk in pkts(key)])
+                ctx.case(suite, (n, sh, repr(ops)), sample={'key': n, 'shape': sh, 'ops': ''.join(o['op'] for o in ops)})
 
 
 def gpg_crosscheck(ctx, d, pgpy, names, pws):
@@ -1061,8 +1144,15 @@ def replay(ctx, case):
             check_foreign(ctx, d, pgpy, 'replay', case, bytes(key), [secret_ints(pk) for pk in pkts(key)])
         elif case.get('suite') == 'gnu':
             check_gnu(ctx, d, pgpy, 'replay', case, bytes(keypool.get(case['key'])))
+        elif case.get('suite') == 'mixed' and case.get('walk'):
+            key = keypool.get(case['key'])
+            out = d.call('rewrite', hx(bytes(key)), ';'.join(case['forms']))
+            with warnings.catch_warnings():
+                warnings.simplefilter('ignore')
+                k2 = pgpy.PGPKey.from_blob(unhx(out))[0]
+                Hist(ctx, d, pgpy, case['key'], 'replay').run(case['ops'], key=k2, orig=[secret_ints(pk) for pk in pkts(key)])
         elif case.get('suite') == 'mixed':
-            mixed(ctx, d, pgpy, None, only=case['key'])
+            mixed(ctx, d, pgpy, None, only=(case['key'], case.get('shape', 'pu')))
         elif 'ops' in case:
             Hist(ctx, d, pgpy, case['key'], 'replay').run(case['ops'])
         return len(ctx.violations) > before
